@@ -42,6 +42,8 @@ func init() {
 			"a scripted read or write fault must surface as an error (a shorter success would be 'records delivered != parse of the input'); which error is not judged",
 			"for malformed input the error must be the reference parser's error (same text); this includes the io.WriterTo source (whose pipe used to surface 'io: read/write on closed pipe' from the writing side first: repaired defect)",
 			"destination kinds the codec does not document must not panic and must not report success while dropping records",
+			"a *csv.Reader source / *csv.Writer destination may come with the caller's own separator, comment rune or fields-per-record (reader) / separator (writer) while the codec has no option of that name: the object's setting is then the dialect of the 'standard CSV parse' (writer: of the bytes written). Lazy quotes, trimmed space, record reuse and CRLF are not pre-set on the object (the codec sets them unconditionally from its options: decision pending), and a setting both on the object and in the codec options is not generated",
+			"io.ReaderFrom and encoding.BinaryUnmarshaler destinations are filled in one piece too: after the parser's error their method must not have been called",
 		},
 		MinNontrivial: 500,
 		QuickTimeout:  0,
@@ -189,6 +191,55 @@ type Case struct {
 	// Table: for record-table and CSVReader SOURCES, the records handed over when they are not the
 	// parse of Text (tables holding nil or empty records, which no parse yields).
 	Table [][]string `json:"table,omitempty"`
+	// Obj: settings the CALLER made on the object it hands over, before the call: the *csv.Reader source of a
+	// produce case (comma, comment, fields per record) or the *csv.Writer destination of a consume case (comma).
+	// The codec option of the same name is then left unset: the object's own setting is the dialect of that
+	// source / destination.
+	Obj *ObjOpts `json:"obj,omitempty"`
+}
+
+// ObjOpts are settings made on a caller-supplied *csv.Reader / *csv.Writer.
+type ObjOpts struct {
+	Comma   string `json:"comma,omitempty"`
+	Comment string `json:"comment,omitempty"`
+	FPR     int    `json:"fields_per_record,omitempty"`
+}
+
+// refOpts returns the option set the reference parse and the reference writer work with: the codec options,
+// plus the settings the caller made on its own reader / writer object. ok = false: a setting is made on the object
+// AND named by a codec option (which of the two wins is not in the statement: such a case is not judged).
+func (c *Case) refOpts() (o Opts, ok bool) {
+	o = c.Opts
+	if c.Obj == nil {
+		return o, true
+	}
+	switch {
+	case c.Dir == "produce" && c.Kind == "*csv.Reader":
+		if (c.Obj.Comma != "" && o.Comma != "") || (c.Obj.Comment != "" && o.Comment != "") || (c.Obj.FPR != 0 && o.FPR != 0) {
+			return o, false
+		}
+		if c.Obj.Comma != "" {
+			o.Comma = c.Obj.Comma
+		}
+		if c.Obj.Comment != "" {
+			o.Comment = c.Obj.Comment
+		}
+		if c.Obj.FPR != 0 {
+			o.FPR = c.Obj.FPR
+		}
+	case c.Dir == "consume" && c.Kind == "*csv.Writer":
+		if c.Obj.Comma != "" && o.WComma != "" {
+			return o, false
+		}
+		if c.Obj.Comma != "" {
+			o.WComma = c.Obj.Comma
+		}
+	}
+	return o, true
+}
+
+func (c *Case) objSet() bool {
+	return c.Obj != nil && (c.Obj.Comma != "" || c.Obj.Comment != "" || c.Obj.FPR != 0) && (c.Kind == "*csv.Reader" || c.Kind == "*csv.Writer")
 }
 
 func textFeatures(t string) string {
@@ -371,11 +422,30 @@ func (c *Case) fp(pre string) string {
 	if len(c.Text) > 4096 {
 		pre += "+over-4KiB"
 	}
+	if longestLine(string(c.Text)) > 4096 {
+		pre += "+line-over-4KiB"
+	}
+	if c.objSet() {
+		pre += "+caller-configured-object"
+	}
 	return strings.Join([]string{textFeatures(string(c.Text)), c.Dir, c.Kind, pre, c.Opts.set(), c.S.class(len(c.Text)), c.O.class(len(c.Text))}, "|")
+}
+
+func longestLine(t string) int {
+	best := 0
+	for _, l := range strings.Split(t, "\n") {
+		if len(l) > best {
+			best = len(l)
+		}
+	}
+	return best
 }
 
 func runCase(m *mon.M, c *Case) {
 	m.Eval(1)
+	if len(c.Text) > 4096 && longestLine(string(c.Text)) > 4096 {
+		m.Class("text/one-line-over-4KiB/" + c.Dir)
+	}
 	switch c.Dir {
 	case "consume":
 		runConsume(m, c)
@@ -559,7 +629,15 @@ func laterConsumes(m *mon.M, c *Case, cons runtime.Consumer, d dest, h held, dc 
 
 func runConsume(m *mon.M, c *Case) {
 	text := string(c.Text)
-	recs, perr := refParse(text, c.Opts, true)
+	ropts, judged := c.refOpts()
+	if !judged {
+		m.Class("not-judged:setting-made-on-the-object-and-named-by-a-codec-option")
+		return
+	}
+	rcv := *c
+	rcv.Opts = ropts
+	rc := &rcv // the case as the reference sees it: the caller's own settings on its object included
+	recs, perr := refParse(text, ropts, true)
 	want := skipRecs(recs, c.Opts.Skip)
 	pre := preState(c, len(want))
 	d, ok := mkDest(c.Kind, c.PreLen, c.PreCap, c.PreText, c.PreNil, c.O)
@@ -567,6 +645,7 @@ func runConsume(m *mon.M, c *Case) {
 		m.Violate("bad-replay-case", "unknown destination kind "+c.Kind, c)
 		return
 	}
+	applyObj(c, d.csvw, nil)
 	before := snapshot(d) // the destination's own pre-state, copied before the codec can touch it
 	rd, r, src, ok := consumeReader(c, text)
 	if !ok {
@@ -585,6 +664,9 @@ func runConsume(m *mon.M, c *Case) {
 	m.NT(c.fp(pre))
 	dc := destClass(c.Kind)
 	m.Class("consume/" + dc + "/" + pre)
+	if c.objSet() {
+		m.Class("consume/caller-configured-csv.Writer")
+	}
 	if c.RK != "" {
 		m.Class("consume/reader=" + c.RK)
 	}
@@ -652,18 +734,18 @@ func runConsume(m *mon.M, c *Case) {
 		}
 		return
 	}
-	if d.bytes != nil && writerOptionsInvalid(c.Opts) {
+	if d.bytes != nil && writerOptionsInvalid(ropts) {
 		// encoding/csv's writer rejects these options as soon as one record is written: with a
 		// malformed input either error may come first, so only the presence of an error is judged
 		m.Class("writer-options-rejected-by-reference")
-		if noR, noE := outcomeWith(c, false); err == nil && (perr != nil || len(want) > 0) && noE == "" && len(noR) == 0 {
+		if noR, noE := outcomeWith(rc, false); err == nil && (perr != nil || len(want) > 0) && noE == "" && len(noR) == 0 {
 			m.Violate("reader-options-ignored/consume/"+dc, fmt.Sprintf("CSVConsumer into %s: input %s options {%s}: nil returned although the writer options are invalid: without the reader options the text holds no record to write", c.Kind, short([]byte(text)), c.Opts.set()), c)
 		} else if err == nil && (perr != nil || len(want) > 0) {
 			m.Violate("writer-error-swallowed/consume/"+dc, fmt.Sprintf("CSVConsumer into %s: encoding/csv's writer rejects the options {%s}, the consumer returned nil", c.Kind, c.Opts.set()), c)
 		}
 		return
 	}
-	if consumeIgnoresReaderOptions(c, d, err, recs, perr) {
+	if consumeIgnoresReaderOptions(rc, d, err, recs, perr) {
 		m.Violate("reader-options-ignored/consume/"+dc, fmt.Sprintf("CSVConsumer into %s: input %s options {%s}: the outcome (err=%s) is what encoding/csv gives WITHOUT the reader options, not with them (with: err=%s, %d records)", c.Kind, short([]byte(text)), c.Opts.set(), errText(err), errText(perr), len(recs)), c)
 		return
 	}
@@ -673,6 +755,10 @@ func runConsume(m *mon.M, c *Case) {
 			m.Violate("malformed-accepted/consume/"+dc, fmt.Sprintf("CSVConsumer into %s: input %s options {%s}: encoding/csv says %q, the consumer returned nil", c.Kind, short([]byte(text)), c.Opts.set(), perr), c)
 		} else if err.Error() != perr.Error() {
 			m.Violate("not-the-parser-error/consume/"+dc, fmt.Sprintf("CSVConsumer into %s: input %s options {%s}: encoding/csv says %q, the consumer says %q", c.Kind, short([]byte(text)), c.Opts.set(), perr, err), c)
+		} else if d.calls != nil && (d.calls() > 0 || len(d.bytes()) > 0) {
+			// io.ReaderFrom / encoding.BinaryUnmarshaler destinations are filled in one piece from the codec's own
+			// buffer: next to the parser's error they must have been handed nothing
+			m.Violate("partial-delivery-on-error/consume/"+dc+"/"+c.Kind, fmt.Sprintf("CSVConsumer into %s: input %s options {%s}: the parser's error %q was returned, and the destination's own method was called %d time(s) and was handed %s", c.Kind, short([]byte(text)), c.Opts.set(), err, d.calls(), short(d.bytes())), c)
 		} else if isIn(byValueKinds, c.Kind) && !before.same(d) {
 			// "the parser's error instead of partial success": a destination the codec fills itself must not
 			// hold a part of the malformed input next to the error (the streaming kinds cannot help it)
@@ -684,7 +770,7 @@ func runConsume(m *mon.M, c *Case) {
 		}
 		return
 	}
-	nodef, nderr := refParse(text, c.Opts, false)
+	nodef, nderr := refParse(text, ropts, false)
 	nodef = skipRecs(nodef, c.Opts.Skip)
 	if d.records != nil {
 		if err != nil {
@@ -724,7 +810,7 @@ func runConsume(m *mon.M, c *Case) {
 		return
 	}
 	// byte destinations
-	wantBytes, werr := refWrite(want, c.Opts, true)
+	wantBytes, werr := refWrite(want, ropts, true)
 	if werr != nil {
 		m.Class("writer-options-rejected-by-reference")
 		if err == nil {
@@ -738,7 +824,12 @@ func runConsume(m *mon.M, c *Case) {
 	}
 	got := d.bytes()
 	if !bytes.Equal(got, wantBytes) {
-		m.Violate("bytes-mismatch/consume/"+dc+"/"+explainBytes(c, got, wantBytes, want, nodef, nderr == nil), fmt.Sprintf("CSVConsumer into %s (%s): input %s options {%s}\n stored   %s\n expected %s", c.Kind, pre, short([]byte(text)), c.Opts.set(), short(got), short(wantBytes)), c)
+		feat := explainBytes(rc, got, wantBytes, want, nodef, nderr == nil)
+		if c.objSet() && (feat == "writer-options-ignored" || feat == "writer-comma-ignored") {
+			// the separator the caller had set on its own *csv.Writer (no codec option names one) was replaced
+			feat = "caller-writer-comma-overridden"
+		}
+		m.Violate("bytes-mismatch/consume/"+dc+"/"+feat, fmt.Sprintf("CSVConsumer into %s (%s): input %s options {%s}\n stored   %s\n expected %s", c.Kind, pre, short([]byte(text)), c.Opts.set(), short(got), short(wantBytes)), c)
 		return
 	}
 	if !laterConsumes(m, c, cons, d, snapshot(d), dc) {
@@ -893,7 +984,15 @@ func laterProduces(m *mon.M, c *Case, prod runtime.Producer, w *sWriter, table [
 
 func runProduce(m *mon.M, c *Case) {
 	text := string(c.Text)
-	recs, perr := refParse(text, c.Opts, true)
+	ropts, judged := c.refOpts()
+	if !judged {
+		m.Class("not-judged:setting-made-on-the-object-and-named-by-a-codec-option")
+		return
+	}
+	rcv := *c
+	rcv.Opts = ropts
+	rc := &rcv // the case as the reference sees it: the caller's own settings on its object included
+	recs, perr := refParse(text, ropts, true)
 	tableKind := isIn(srcTableKinds, c.Kind)
 	if tableKind && len(c.Table) > 0 {
 		// a table no parse yields (nil / empty records): the records handed over ARE the input
@@ -909,10 +1008,12 @@ func runProduce(m *mon.M, c *Case) {
 		m.Violate("bad-replay-case", "unknown source kind "+c.Kind, c)
 		return
 	}
+	applyObj(c, nil, s.csvr)
 	w := newWriter(c.S)
 	prod := runtime.CSVProducer(c.Opts.sut()...)
 	for i := 0; i < c.Warm; i++ {
 		if ws, ok := mkSource(c.Kind, []byte(text), copyRecs(recs), Script{}); ok {
+			applyObj(c, nil, ws.csvr)
 			_, _ = mon.Catch(func() { _ = prod.Produce(newWriter(Script{}), ws.v) })
 			m.Class("codec-instance-reused")
 		}
@@ -922,6 +1023,9 @@ func runProduce(m *mon.M, c *Case) {
 	m.NT(c.fp(""))
 	sc := srcClass(c.Kind)
 	m.Class("produce/" + sc)
+	if c.objSet() {
+		m.Class("produce/caller-configured-csv.Reader")
+	}
 	if tableKind && len(c.Table) > 0 {
 		m.Class("produce/table-with-nil-or-empty-records")
 	}
@@ -965,17 +1069,22 @@ func runProduce(m *mon.M, c *Case) {
 		}
 		return
 	}
-	if writerOptionsInvalid(c.Opts) {
+	if writerOptionsInvalid(ropts) {
 		m.Class("writer-options-rejected-by-reference")
-		if noR, noE := outcomeWith(c, false); err == nil && (perr != nil || len(want) > 0) && !tableKind && noE == "" && len(noR) == 0 {
+		if noR, noE := outcomeWith(rc, false); err == nil && (perr != nil || len(want) > 0) && !tableKind && noE == "" && len(noR) == 0 {
 			m.Violate("reader-options-ignored/produce/"+sc, fmt.Sprintf("CSVProducer from %s: input %s options {%s}: nil returned although the writer options are invalid: without the reader options the text holds no record to write", c.Kind, short([]byte(text)), c.Opts.set()), c)
 		} else if err == nil && (perr != nil || len(want) > 0) {
 			m.Violate("writer-error-swallowed/produce/"+sc, fmt.Sprintf("CSVProducer from %s: encoding/csv's writer rejects the options {%s}, the producer returned nil", c.Kind, c.Opts.set()), c)
 		}
 		return
 	}
-	if !tableKind && produceIgnoresReaderOptions(c, w.buf, err, recs, perr) {
-		m.Violate("reader-options-ignored/produce/"+sc, fmt.Sprintf("CSVProducer from %s: input %s options {%s}: the outcome (err=%s, written %s) is what encoding/csv gives WITHOUT the reader options, not with them (with: err=%s)", c.Kind, short([]byte(text)), c.Opts.set(), errText(err), short(w.buf), errText(perr)), c)
+	if !tableKind && produceIgnoresReaderOptions(rc, w.buf, err, recs, perr) {
+		sig := "reader-options-ignored/produce/" + sc
+		if c.objSet() {
+			// the settings the caller had made on its own *csv.Reader (no codec option names them) were replaced
+			sig = "caller-reader-settings-overridden/produce/" + sc
+		}
+		m.Violate(sig, fmt.Sprintf("CSVProducer from %s: input %s options {%s}: the outcome (err=%s, written %s) is what encoding/csv gives WITHOUT the reader options, not with them (with: err=%s)", c.Kind, short([]byte(text)), c.Opts.set(), errText(err), short(w.buf), errText(perr)), c)
 		return
 	}
 	if sc == "record-table-named-elements" && err != nil {
@@ -994,7 +1103,7 @@ func runProduce(m *mon.M, c *Case) {
 		}
 		return
 	}
-	wantBytes, werr := refWrite(want, c.Opts, true)
+	wantBytes, werr := refWrite(want, ropts, true)
 	if werr != nil {
 		m.Class("writer-options-rejected-by-reference")
 		if err == nil {
@@ -1012,10 +1121,10 @@ func runProduce(m *mon.M, c *Case) {
 		if tableKind {
 			nodef, nderr = nil, fmt.Errorf("n/a")
 		} else {
-			nodef, nderr = refParse(text, c.Opts, false)
+			nodef, nderr = refParse(text, ropts, false)
 			nodef = skipRecs(nodef, c.Opts.Skip)
 		}
-		feat := explainBytes(c, w.buf, wantBytes, want, nodef, nderr == nil)
+		feat := explainBytes(rc, w.buf, wantBytes, want, nodef, nderr == nil)
 		if tableKind && len(c.Table) > 0 {
 			feat = "nil-or-empty-records"
 		}
@@ -1026,6 +1135,27 @@ func runProduce(m *mon.M, c *Case) {
 		return
 	}
 	m.Class("bytes-ok")
+}
+
+// applyObj makes the caller's own settings on the object it hands over (before the call).
+func applyObj(c *Case, w *csv.Writer, r *csv.Reader) {
+	if c.Obj == nil {
+		return
+	}
+	if w != nil && c.Obj.Comma != "" {
+		w.Comma = r1(c.Obj.Comma)
+	}
+	if r != nil {
+		if c.Obj.Comma != "" {
+			r.Comma = r1(c.Obj.Comma)
+		}
+		if c.Obj.Comment != "" {
+			r.Comment = r1(c.Obj.Comment)
+		}
+		if c.Obj.FPR != 0 {
+			r.FieldsPerRecord = c.Obj.FPR
+		}
+	}
 }
 
 func replay(m *mon.M, raw json.RawMessage) {
